@@ -717,7 +717,17 @@ func (g *FnGen) merge(b *ssa.BasicBlock, ins []*State) *State {
 		g.defs = append(g.defs, eq(m, t))
 		return m, true
 	}
+	var mergeAllocs []*ssa.Alloc
 	for a := range live[0].locals {
+		mergeAllocs = append(mergeAllocs, a)
+	}
+	sort.Slice(mergeAllocs, func(i, j int) bool {
+		if mergeAllocs[i].Pos() != mergeAllocs[j].Pos() {
+			return mergeAllocs[i].Pos() < mergeAllocs[j].Pos()
+		}
+		return mergeAllocs[i].Name() < mergeAllocs[j].Name()
+	})
+	for _, a := range mergeAllocs {
 		a := a
 		t, ok := mergeTerm(localHint(a), g.c.reg.sortOf(a.Type().(*types.Pointer).Elem()), func(s *State) (string, bool) { t, ok := s.locals[a]; return t, ok })
 		if ok {
@@ -732,7 +742,7 @@ func (g *FnGen) merge(b *ssa.BasicBlock, ins []*State) *State {
 			hs[k] = true
 		}
 	}
-	for k := range hs {
+	for _, k := range sortedKeys(hs) {
 		k := k
 		t, _ := mergeTerm(heapName(k), "(Array Ref "+k+")", func(s *State) (string, bool) { return g.heap(s, k), true })
 		out.heaps[k] = t
@@ -743,14 +753,19 @@ func (g *FnGen) merge(b *ssa.BasicBlock, ins []*State) *State {
 			gs[k] = true
 		}
 	}
-	for k := range gs {
+	for _, k := range sortedKeys(gs) {
 		k := k
 		t, _ := mergeTerm("G_"+k, g.c.specSort(g.c.ghosts[k].Sort, nil).sort, func(s *State) (string, bool) { return g.ghost(s, k), true })
 		out.ghosts[k] = t
 	}
 	t, _ := mergeTerm("next", "Int", func(s *State) (string, bool) { return s.next, true })
 	out.next = t
+	var mergeIters []*ssa.Range
 	for rg := range live[0].iters {
+		mergeIters = append(mergeIters, rg)
+	}
+	sort.Slice(mergeIters, func(i, j int) bool { return mergeIters[i].Pos() < mergeIters[j].Pos() })
+	for _, rg := range mergeIters {
 		rg := rg
 		mt := rg.X.Type().Underlying().(*types.Map)
 		_, ds := g.mapSorts(mt)
@@ -948,7 +963,7 @@ func (g *FnGen) loopHead(s *State, li *loopInfo) {
 			tinv = append(tinv, c)
 		}
 	}
-	for name := range ghostsMod {
+	for _, name := range sortedKeys(ghostsMod) {
 		gd := g.c.ghosts[name]
 		s.ghosts[name] = g.fresh("G_"+name+"_h", g.ghostSort(gd))
 	}
@@ -1404,7 +1419,7 @@ func (g *FnGen) allocRef(s *State, hint string) string {
 func (g *FnGen) zeroArray(s *State, r string, et types.Type, n string) {
 	sorts := map[string]bool{}
 	g.cellSorts(et, sorts)
-	for k := range sorts {
+	for _, k := range sortedKeys(sorts) {
 		h := g.heap(s, k)
 		nh := g.fresh(heapName(k), "(Array Ref "+k+")")
 		// cells of the fresh object are zero, everything else unchanged
@@ -1803,4 +1818,15 @@ func (g *FnGen) touchedLocals(li *loopInfo) []string {
 		}
 	}
 	return out
+}
+
+
+// sortedKeys: deterministic iteration order for the generator (the SMT text must not depend on Go's map order).
+func sortedKeys(m map[string]bool) []string {
+	ks := make([]string, 0, len(m))
+	for k := range m {
+		ks = append(ks, k)
+	}
+	sort.Strings(ks)
+	return ks
 }
